@@ -168,6 +168,9 @@ var kFastaWrite = register(&Kind{Name: "fasta_write",
 		carved := append(append(append([]byte{}, name0...), seq0...), "GUARDguard"...)
 		carved0 := slices.Clone(carved)
 		fa := &fasta.Fasta{Name: carved[:len(name0)], Sequence: carved[len(name0) : len(name0)+len(seq0)]}
+		poisonWriters(func(w io.Writer) error {
+			return (&fasta.Fasta{Name: []byte("poison"), Sequence: bytes.Repeat([]byte("N"), 100)}).Write(w)
+		})
 		w := &callRecorder{}
 		if err := fa.Write(w); err != nil {
 			return L(I(3), S("Write to a writer that never fails returned an error"))
